@@ -1,10 +1,66 @@
-"""gen_coords half of C10 (placeholder until the gen_coords driver exists)."""
+"""gen_coords half of C10: a molecule whose atoms are not all connected is refused."""
+import copy
+
 import hypothesis.strategies as st
 
+from . import gc
+from .core import Violation, Reject, crash
 
-def strategy():
-    return st.nothing()
+
+@st.composite
+def strategy(draw):
+    spec = draw(gc.system(max_moltypes=2, max_res=5, max_total_mol=3))
+    mode = draw(st.sampled_from(["connected", "atom", "atom", "residue"]))
+    spec = copy.deepcopy(spec)
+    used = {n for n, _ in spec["molecules"]}
+    mts = [mt for mt in spec["moltypes"] if mt["name"] in used]
+    if mode == "atom":
+        cands = [(mt, r) for mt in mts for r, res in enumerate(mt["residues"]) if len(res["atoms"]) - (1 if res["vs"] else 0) >= 2]
+        if not cands:
+            mode = "connected"
+        else:
+            mt, r = draw(st.sampled_from(cands))
+            res = mt["residues"][r]
+            nreal = len(res["atoms"]) - (1 if res["vs"] else 0)
+            victim = nreal - 1          # last real atom: a leaf of the bond tree, not used by the virtual site (atoms 0,1)
+            if res["vs"] and victim in res["vs"]["atoms"][1:]:
+                mode = "connected"
+            elif r > 0 and False:
+                pass
+            else:
+                res["bonds"] = [b for b in res["bonds"] if victim not in (b[0], b[1])]
+                if victim == 0:
+                    mode = "connected"      # atom 0 carries the inter-residue bonds
+                spec["broken"] = {"mol": mt["name"], "residue": r, "atom": victim}
+    if mode == "residue":
+        cands = [mt for mt in mts if len(mt["residues"]) >= 2 and mt["shape"] != "ring"]
+        if not cands:
+            mode = "connected"
+        else:
+            mt = draw(st.sampled_from(cands))
+            k = draw(st.integers(0, len(mt["res_edges"]) - 1))
+            spec["broken"] = {"mol": mt["name"], "edge": mt["res_edges"][k]}
+            mt["res_edges"] = [e for i, e in enumerate(mt["res_edges"]) if i != k]
+    edge = gc.dilute_box(spec)
+    spec["opts"] = {"box": [edge, edge, edge]}
+    spec["half"] = "gen_coords"
+    spec["mode"] = mode
+    return spec
 
 
 def check(spec, ctx):
-    raise NotImplementedError
+    res = gc.run_gen_coords(spec, ctx)
+    mode = spec["mode"]
+    ctx.label("coords_" + mode)
+    if mode == "connected":
+        if res.exc is not None:
+            if isinstance(res.exc, (IOError, OSError)):
+                raise Violation("gen_coords:connected_molecule_refused", str(res.exc)[:300])
+            raise crash("gen_coords:crash", res.exc)
+        return
+    if res.exc is None:
+        raise Violation(f"gen_coords:disconnected_{mode}_accepted",
+                        f"a molecule with an unconnected {mode} ({spec.get('broken')}) was built without an error")
+    if not isinstance(res.exc, (IOError, OSError)):
+        raise crash(f"gen_coords:disconnected_{mode}_crash", res.exc)
+    ctx.nontrivial = True
